@@ -213,6 +213,9 @@ func init() {
 			}
 		})
 		cfg := cfgSpec{Protos: []string{hs.Target}, Codecs: []string{hs.TCodec}, Comps: []string{"gzip"}}
+		if hs.Dir == "emptyrpc" {
+			return []any{hbEmptyRPC(hs, obs, seed)}
+		}
 		tc, err := buildTranscoder(cfg, handler, nil)
 		if err != nil {
 			panic(err)
@@ -286,4 +289,51 @@ func init() {
 		}
 		return []any{obs}
 	})
+}
+
+// hbEmptyRPC: an enveloped RPC client (hs.Target names ITS protocol) calls the server-streaming Feed and ends
+// its request stream before the first envelope; the service speaks REST only.
+func hbEmptyRPC(hs hbScn, obs hbObs, seed int64) hbObs {
+	var calls atomic.Int64
+	backend := http.HandlerFunc(func(w http.ResponseWriter, req *http.Request) {
+		calls.Add(1)
+		_, _ = io.Copy(io.Discard, req.Body)
+		w.Header().Set("Content-Type", "text/plain")
+		w.WriteHeader(http.StatusOK)
+		_, _ = w.Write([]byte("x"))
+	})
+	tc, err := buildTranscoder(cfgSpec{Protos: []string{"rest"}, Codecs: []string{"json"}, Comps: []string{"gzip"}}, backend, nil)
+	if err != nil {
+		panic(err)
+	}
+	form := map[string]string{"connect": "connect_stream", "grpc": "grpc", "grpcweb": "grpcweb"}[hs.Target]
+	scn := &scenario{SID: hs.SID, Cl: clientSpec{Form: form, Method: "Feed", Codec: hs.TCodec}}
+	rn := newRun(scn, seed)
+	hdr := http.Header{}
+	major := 1
+	switch form {
+	case "grpc":
+		hdr.Set("Content-Type", "application/grpc+"+hs.TCodec)
+		hdr.Set("Te", "trailers")
+		major = 2
+	case "grpcweb":
+		hdr.Set("Content-Type", "application/grpc-web+"+hs.TCodec)
+	default:
+		hdr.Set("Content-Type", "application/connect+"+hs.TCodec)
+	}
+	u := &url.URL{Path: svcPrefix + "Feed"} // (the empty message is a valid Feed request: GET /v1/feed)
+	req := &http.Request{Method: http.MethodPost, URL: u, Header: hdr, Proto: map[int]string{1: "HTTP/1.1", 2: "HTTP/2.0"}[major],
+		ProtoMajor: major, ProtoMinor: 2 - major, Host: "verif.test", RequestURI: u.Path, ContentLength: -1}
+	var done atomic.Bool
+	sb := &scriptBody{}
+	req.Body = sb
+	w := newRecWriter(&done)
+	res := serve(tc, req, sb, w, &done, false)
+	co := rn.parseClient(form, res)
+	obs.Panic = res.panicVal != nil
+	obs.Status, obs.BodyLen = w.status, len(w.body)
+	obs.N = int(calls.Load())
+	obs.Code = co.End.Code
+	obs.Problems = append(obs.Problems, co.Problems...)
+	return obs
 }
